@@ -50,6 +50,17 @@ SCALE_THEOREMS = ["clipLineM_eq", "trivialCase_scale", "bbox_scale", "scaleOf_po
 FLIP_THEOREMS = ["closureOK_of_valid", "cross_lemma", "inside_flip", "uniqueHit_of_valid", "C14_pointset_of_segs'", "C14_exact_of_segs'"]
 
 
+# Float.lean: the power-of-two scaling of clipLine on an IEEE-754 binary64 model; Frexp/Ldexp of GenLib proved against their specification
+FLOAT_THEOREMS = ["frexpExp_spec", "frexpExp_unique", "ldexp_eq_zpow", "factor_spec", "isF64_mul_up", "isF64_mul_down", "maxAbsC_ge",
+                  "C14_scale_up_exact", "C14_float_scale_up", "C14_scale_back_exact", "C14_scale_roundtrip"]
+
+# Beyond.lean: what holds outside the quantifier (non-simple lines, invalid polygons) and what does not
+BEYOND_THEOREMS = ["C14_pointset_beyond", "C14_pointset_nonsimple", "noZeroSegs_of_simple", "nonsimple_length_counts_twice",
+                   "invalid_closure_fails", "invalid_pointset_fails", "closed_line_lost"]
+
+# Chains.lean: the oracle's chains (what the judge compares with) consist of exactly the oracle's segments (what the theorems speak about)
+CHAIN_THEOREMS = ["oracleChains_segs", "pathChains_segs", "segIvs_starts", "segIvs_tail_pos"]
+
 SRC_MODULE = T + "Src"
 SRC_THEOREMS = ["C14_src", "C14_vertices_of_contract", "C14_empty_iff_of_contract"]
 
@@ -96,12 +107,12 @@ def pregen(check):
 
 CFG = {
     "id": "C14",
-    "lean_modules": ["GeomV.C14.Proofs", "GeomV.C14.Complete", "GeomV.C14.Length", "GeomV.C14.Unify", "GeomV.C14.Flip", "GeomV.C14.Scale", "GeomV.C14.Known", "GeomV.C14.Src", TIE_MODULE],
+    "lean_modules": ["GeomV.C14.Proofs", "GeomV.C14.Complete", "GeomV.C14.Length", "GeomV.C14.Unify", "GeomV.C14.Flip", "GeomV.C14.Scale", "GeomV.C14.Float", "GeomV.C14.Beyond", "GeomV.C14.Chains", "GeomV.C14.Known", "GeomV.C14.Src", TIE_MODULE],
     "lean_dirs": ["C14", "C01"],
     "exe": "geomv_c14",
     "go_cmd": "c14",
     "stages": ["go:gen", "go:impl", "lean:judge"],
-    "theorems": [T + n for n in ["C14_glue", "C14_trivial", "C14_exact", "C14_vertices", "C14_empty_iff", "oracle_midpoints_inside", "oracle_endpoints_on_L", "oracle_subintervals_cover", "oracle_complete", "oracle_complete_col", "boundary_param_mem", "oracle_intervals_disjoint", "collinear_free", "C14_length", "C14_together_defect", "C14_pointset_of_segs", "C14_exact_of_segs", "closed_iff_covered", "covered_mergeAdj", "onSeg_sub_iff", "C14_known_small_scale", "known_small_scale_facts"] + SCALE_THEOREMS + FLIP_THEOREMS + TIE_THEOREMS + SRC_THEOREMS],
+    "theorems": [T + n for n in ["C14_glue", "C14_trivial", "C14_exact", "C14_vertices", "C14_empty_iff", "oracle_midpoints_inside", "oracle_endpoints_on_L", "oracle_subintervals_cover", "oracle_complete", "oracle_complete_col", "boundary_param_mem", "oracle_intervals_disjoint", "collinear_free", "C14_length", "C14_together_defect", "C14_pointset_of_segs", "C14_exact_of_segs", "closed_iff_covered", "covered_mergeAdj", "onSeg_sub_iff", "C14_known_small_scale", "known_small_scale_facts"] + SCALE_THEOREMS + FLOAT_THEOREMS + BEYOND_THEOREMS + CHAIN_THEOREMS + FLIP_THEOREMS + TIE_THEOREMS + SRC_THEOREMS],
     "level": "proof",
     "trusted_base": [
         "Lean 4.33.0 kernel; axioms of every theorem printed by #print axioms must be within {propext, Classical.choice, Quot.sound}",
